@@ -37,3 +37,64 @@ pub fn guarded<T>(f: impl FnOnce() -> T + std::panic::UnwindSafe) -> Result<T, S
 pub fn quiet_panics() {
     std::panic::set_hook(Box::new(|_| {}));
 }
+
+// ---------------------------------------------------------------------------------------------
+// In-memory workspace (implements ide::file_system::FileSystem) shared by the ide-level observers.
+pub mod memfs {
+    use ide::file_system::{FileId, FilePath, FileSet, FileSystem};
+    use std::collections::HashMap;
+    use std::path::Path;
+
+    #[derive(Default)]
+    pub struct MemFs {
+        pub contents: HashMap<FilePath, String>,
+        pub file_set: FileSet,
+        pub next_id: u32,
+        pub reads: std::cell::RefCell<Vec<String>>,
+    }
+
+    impl MemFs {
+        pub fn new() -> Self {
+            Self::default()
+        }
+        pub fn path(p: &str) -> FilePath {
+            FilePath::from(Path::new(p))
+        }
+        pub fn set(&mut self, p: &str, text: &str) {
+            self.contents.insert(Self::path(p), text.to_string());
+        }
+        pub fn remove(&mut self, p: &str) {
+            self.contents.remove(&Self::path(p));
+        }
+        pub fn id(&mut self, p: &str) -> FileId {
+            self.assign_or_get_file_id(Self::path(p))
+        }
+        pub fn path_str(&self, id: &FileId) -> String {
+            self.file_set.path_for_file(id).0.to_string_lossy().to_string()
+        }
+        pub fn known_id(&self, p: &str) -> Option<FileId> {
+            self.file_set.file_for_path(&Self::path(p))
+        }
+    }
+
+    impl FileSystem for MemFs {
+        fn assign_or_get_file_id(&mut self, path: FilePath) -> FileId {
+            match self.file_set.file_for_path(&path) {
+                Some(id) => id,
+                None => {
+                    let id = FileId(self.next_id);
+                    self.next_id += 1;
+                    self.file_set.insert(id, path);
+                    id
+                }
+            }
+        }
+        fn path_for_file(&self, file_id: &FileId) -> &FilePath {
+            self.file_set.path_for_file(file_id)
+        }
+        fn read_content(&self, file_path: &FilePath) -> Option<String> {
+            self.reads.borrow_mut().push(file_path.0.to_string_lossy().to_string());
+            self.contents.get(file_path).cloned()
+        }
+    }
+}
